@@ -177,6 +177,48 @@ def launches(res, ctx, rng):
             res.count('launches_with_address_ties')
 
 
+def launch_streams(res, ctx, rng):
+    """Several launch windows (and stand-alone image records) decoded by ONE parser, the same images (uuids) recurring
+    at other load addresses: every launch trace lists the records of its own window with their own addresses."""
+    for _ in range(ctx.pick(60, 3000)):
+        parser = ev.new_parser()
+        uuids = [rng.randbytes(16) for _ in range(3)]
+        ts = 1000
+        history = []
+        for w in range(rng.randrange(2, 6)):
+            tid = rng.choice((8, 9))
+            recs = [(rng.choice(('DYLD_uuid_map_a', 'DYLD_uuid_shared_cache_a')), rng.choice(uuids), rng.getrandbits(36))
+                    for _ in range(rng.randrange(0, 5))]
+            pre = [H.uuid_record(rng.choice(('DYLD_uuid_map_a', 'DYLD_uuid_unmap_a', 'DYLD_uuid_shared_cache_a')),
+                                 rng.choice(uuids), rng.getrandbits(36))] if rng.random() < 0.5 else []
+            seq = pre + H.launch(rng.getrandbits(40), with_noise(rng, [H.uuid_record(c, u, a) for c, u, a in recs]))
+            events = H.materialize(H.on_thread(tid, seq), t0=ts)
+            ts = events[-1].timestamp + 7
+            history += events
+            try:
+                traces = [t for t in (parser.feed(e) for e in events) if t is not None]
+            except Exception as x:
+                res.violation(f'c20-launch-raises-{core.exc_name(x)}', f'{x!r}', {'events': [ev.ev_to_case(e) for e in history]})
+                return
+            la = [t for t in traces if type(t).__name__ == 'DyldLaunchExecutable']
+            res.case(tuple((e.debugid, e.data) for e in events))
+            res.count('launch_stream_windows')
+            got = sorted((type(x).__name__, x.uuid.bytes, x.load_addr) for x in la[0].uuid_map_a) if len(la) == 1 else None
+            want = sorted(('DyldUuidMapA' if c == 'DYLD_uuid_map_a' else 'DyldUuidSharedCacheA', u, a) for c, u, a in recs)
+            if got != want:
+                res.violation('c20-launch-list-depends-on-earlier-windows', f'window {w + 1} of one stream: launch lists '
+                              f'{[(g[0], hex(g[2])) for g in got or []]}, its window holds {[(x[0], hex(x[2])) for x in want]}',
+                              {'events': [ev.ev_to_case(e) for e in history]})
+                return
+            if pre:
+                single = [t for t in traces if type(t).__name__.startswith('DyldUuid') and len(t.ktraces) == 1
+                          and t.ktraces[0] is events[0]]
+                if single and single[0].load_addr != int.from_bytes(events[0].data[16:24], 'little'):
+                    res.violation('c20-image-record-depends-on-earlier-records', 'a stand-alone image record shows another '
+                                  'record\'s load address', {'events': [ev.ev_to_case(e) for e in history]})
+                    return
+
+
 TH_INFO, USTACK = 0x1, 0x8
 
 
@@ -270,6 +312,7 @@ def run(ctx):
     rng = ctx.rng
     faults(res, ctx, rng)
     launches(res, ctx, rng)
+    launch_streams(res, ctx, rng)
     samplers(res, ctx, rng)
     stream.run_stream(res, 'c20', STREAM_CASES, rng, 'composite windows')
     recheck_retained(res)
@@ -287,6 +330,7 @@ def run(ctx):
     res.require('samplers_compared', 50)
     res.require('stream_windows_one_thread', 20)
     res.require('retained_traces_rechecked', 50)
+    res.require('launch_stream_windows', 20)
     return res
 
 
